@@ -245,8 +245,9 @@ fn step_try_push_slice(data: &[u8; 64], len: usize) {
     if r.is_ok() {
         assert!(b.wire_repr.len() == w + len, "[C16] try_push_slice appends all octets");
         let p: usize = kani::any();
-        kani::assume(p < len);
-        assert!(b.wire_repr[w + p] == data[p], "[C16] try_push_slice appends the given octets in order");
+        if p < len {
+            assert!(b.wire_repr[w + p] == data[p], "[C16] try_push_slice appends the given octets in order");
+        }
         assert!(i >= w || b.wire_repr[i] == old.wire[i], "[C16] try_push_slice keeps the earlier octets");
         assert!(b.label_len as usize == old.label_len as usize + len, "[C16] try_push_slice extends the current label");
         assert!(b.label_start == old.label_start, "[C16] try_push_slice stays in the current label");
@@ -328,8 +329,9 @@ fn step_try_push_slice_63(data: &[u8; 64]) {
     if r.is_ok() {
         assert!(b.wire_repr.len() == old.w + 63, "[C16] try_push_slice appends all octets");
         let p: usize = kani::any();
-        kani::assume(p < 63);
-        assert!(b.wire_repr[old.w + p] == data[p], "[C16] try_push_slice appends the given octets in order");
+        if p < 63 {
+            assert!(b.wire_repr[old.w + p] == data[p], "[C16] try_push_slice appends the given octets in order");
+        }
         assert!(i >= old.w || b.wire_repr[i] == old.wire[i], "[C16] try_push_slice keeps the earlier octets");
         assert!(b.label_len == 63 && b.label_start == old.label_start, "[C16] try_push_slice extends the current label");
         assert!(b.label_offsets.len() == old.n, "[C16] try_push_slice adds no label");
